@@ -144,6 +144,7 @@ type clientCfg struct {
 	AfterRecSleepU                          int           // the after-reconnect callback takes this long
 	HandshakeVersion                        int           // handshake version announced by Dial (default: the scenario's version)
 	ReadBuffer                              int           // client.ReadBufferSize
+	URLSuffix                               string        // appended to the peer's URL (a user query)
 }
 
 func defaultCfg() clientCfg {
@@ -217,7 +218,7 @@ func (t *T) NewClient(p *Peer, cfg clientCfg) (client.Client, error) {
 	t.cl = cl
 	t.ev("api.dial.start")
 	before := p.Dials()
-	err := cl.Dial(context.Background(), p.URL(), t.handshake(), opts...)
+	err := cl.Dial(context.Background(), p.URL()+cfg.URLSuffix, t.handshake(), opts...)
 	t.ev("api.dial.end", "err", fmt.Sprint(err))
 	if err == nil {
 		// a TCP dial without authentication returns as soon as the kernel completed the connection: let the scripted peer's
